@@ -126,6 +126,11 @@ def gen_case(prop: str, seed: int, tier: str, index: int, classes: List[str]) ->
         from sim.system import draw_firmware
 
         cfg["firmware"] = draw_firmware(rng)
+    rng_r = random.Random(mix(seed, "handler-raises"))
+    if prop == "C08" and rng_r.random() < 0.25:
+        # the client's own handler fails on one delivery (first step or middle of a phase): the phase raises, its FINISHED is still owed
+        cfg["raise_events"] = {rng_r.choice(["LOCATING_STARTED", "LOCATING_STARTED", "CONNECTION_STARTED", "LOCATING_DISCOVERED_SPA", "CONNECTION_GOT_CHANNEL",
+                                            "CONNECTION_SPA_COMPLETE"]): rng_r.choice([1, 1, 2, 3])}
     # tuning knobs (class constants of GeckoConstants), randomised per run so that nothing silently depends on the shipped value:
     # the pause between handshake steps (shipped 0: a non-zero pause widens every window inside the handshake) ...
     cfg["consts"] = {"CONNECTION_STEP_PAUSE_IN_SECONDS": rng.choice([0, 0, 0, 0.3, 1.0])}
@@ -464,6 +469,12 @@ async def scenario(world: WorldA) -> None:
                                 # a phase the pump started while an operation was suspended explains everything that follows it
                                 if not sig.startswith("no-recovery:phase-started-during-reset"):
                                     sig = cand
+                # ... and is the pump, this long after the network healed, still inside a phase it started before (no FINISHED delivered)?  A phase
+                # has its own bounds (discovery timeout; retry count x (timeout + pause) per handshake step): one that never ends is a different
+                # history from a pump that came back to its loop and finds nothing to do
+                open_now = [(k, a) for (k, a, b) in pump_phases(man.deliveries, world.now()) if b >= world.now() - 1e-9 and a < heal_t + 1.0]
+                if open_now:
+                    sig += f":pump-never-came-back-from-{open_now[0][0]}"
                 world.violate("C09", "no-recovery", f"network healthy since {heal_t:.2f}, still {st} after {B:.0f}s "
                               f"(facade={'set' if man.facade else None}, spa={'set' if spa_present else None}); user ops: "
                               f"{[(u['op'], round(u['t0'], 2), u['state0']) for u in user_ops]}", sig=sig)
